@@ -208,10 +208,25 @@ func runHash(t *core.Tape, info *core.RunInfo) *core.Violation {
 	suite, sn := pickSuite(t)
 	st := genStmt(suite, t)
 	info.Config["mode"], info.Config["suite"], info.Config["pred"] = "hash", sn, st.pred.String()
+	// the protocol name is a message of any length (it doubles as the signed message when proofs are
+	// used as signatures): short names, and long ones whose difference lies beyond the first 64, 128,
+	// ... bytes (seed C14f: the name was cut to 64 bytes before it keyed the challenge)
+	protoA, protoB := "proto-A", "proto-B"
+	if t.Bool("cfg.name", 400) {
+		ln := []int{63, 64, 65, 100, 128, 129, 200, 300}[t.Intn("cfg.name", 8)]
+		nb := make([]byte, ln+1)
+		for i := range nb {
+			nb[i] = 'a' + byte(i%23)
+		}
+		protoA = string(nb)
+		nb[ln] ^= 1 // the two names agree on their first ln bytes
+		protoB = string(nb)
+		info.Config["name_len"] = ln + 1
+	}
 	prv := st.pred.Prover(suite, st.sval, st.pval, st.choice)
 	var pf []byte
 	var err error
-	if pn := core.Guard(func() { pf, err = proof.HashProve(suite, "proto-A", prv) }); pn != nil {
+	if pn := core.Guard(func() { pf, err = proof.HashProve(suite, protoA, prv) }); pn != nil {
 		return viol("totality", "hash/prove-panic/"+sn, "HashProve panicked on %s: %v | %s", st.pred, pn, core.LastStack())
 	}
 	if err != nil {
@@ -233,22 +248,22 @@ func runHash(t *core.Tape, info *core.RunInfo) *core.Violation {
 		}
 		return nil
 	}
-	if v := check("valid", pf, "proto-A", ver(), true); v != nil {
+	if v := check("valid", pf, protoA, ver(), true); v != nil {
 		return v
 	}
 	switch t.Intn("fault", 7) {
 	case 0:
 		info.Fault("other-protocol-name")
-		return check("other-protocol-name", pf, "proto-B", ver(), false)
+		return check("other-protocol-name", pf, protoB, ver(), false)
 	case 1:
 		b := kit.CopyBytes(pf)
 		k := t.Intn("fault", len(b)*8)
 		b[k/8] ^= 1 << (k % 8)
 		info.Fault("bit-flip")
-		return check("bit-flip", b, "proto-A", ver(), false)
+		return check("bit-flip", b, protoA, ver(), false)
 	case 2:
 		info.Fault("truncated")
-		return check("truncated", pf[:t.Intn("fault", len(pf))], "proto-A", ver(), false)
+		return check("truncated", pf[:t.Intn("fault", len(pf))], protoA, ver(), false)
 	case 3:
 		// other public points: one Rep point of the proven branch replaced
 		pv := map[string]kyber.Point{}
@@ -258,7 +273,7 @@ func runHash(t *core.Tape, info *core.RunInfo) *core.Violation {
 		name := fmt.Sprintf("P%d_0", st.proven)
 		pv[name] = suite.Point().Add(pv[name], suite.Point().Base())
 		info.Fault("other-public-point")
-		return check("other-public-point", pf, "proto-A", st.pred.Verifier(suite, pv), false)
+		return check("other-public-point", pf, protoA, st.pred.Verifier(suite, pv), false)
 	case 4:
 		// falsified secret
 		if len(st.used) == 0 {
@@ -273,13 +288,13 @@ func runHash(t *core.Tape, info *core.RunInfo) *core.Violation {
 		info.ByzFired("falsified-secret")
 		var bad []byte
 		var perr error
-		if pn := core.Guard(func() { bad, perr = proof.HashProve(suite, "proto-A", st.pred.Prover(suite, sv, st.pval, st.choice)) }); pn != nil {
+		if pn := core.Guard(func() { bad, perr = proof.HashProve(suite, protoA, st.pred.Prover(suite, sv, st.pval, st.choice)) }); pn != nil {
 			return viol("totality", "hash/prove-panic/"+sn, "HashProve with a falsified secret panicked: %v", pn)
 		}
 		if perr != nil {
 			return nil
 		}
-		return check("falsified-secret", bad, "proto-A", ver(), false)
+		return check("falsified-secret", bad, protoA, ver(), false)
 	case 5:
 		// claims a branch it cannot satisfy
 		if st.falseBranch < 0 || st.nOr < 2 {
@@ -296,13 +311,13 @@ func runHash(t *core.Tape, info *core.RunInfo) *core.Violation {
 		info.ByzFired("claims-false-branch")
 		var bad []byte
 		var perr error
-		if pn := core.Guard(func() { bad, perr = proof.HashProve(suite, "proto-A", st.pred.Prover(suite, st.sval, st.pval, ch)) }); pn != nil {
+		if pn := core.Guard(func() { bad, perr = proof.HashProve(suite, protoA, st.pred.Prover(suite, st.sval, st.pval, ch)) }); pn != nil {
 			return viol("totality", "hash/prove-panic/"+sn, "HashProve claiming a false branch panicked: %v", pn)
 		}
 		if perr != nil {
 			return nil
 		}
-		return check("claims-false-branch", bad, "proto-A", ver(), false)
+		return check("claims-false-branch", bad, protoA, ver(), false)
 	case 6:
 		// checked against a different predicate (another statement over the same suite)
 		o := genStmt(suite, t)
@@ -318,7 +333,7 @@ func runHash(t *core.Tape, info *core.RunInfo) *core.Violation {
 		for k, v := range o.pval {
 			pv[k] = v
 		}
-		return check("other-predicate", pf, "proto-A", o.pred.Verifier(suite, pv), false)
+		return check("other-predicate", pf, protoA, o.pred.Verifier(suite, pv), false)
 	}
 	return nil
 }
